@@ -16,7 +16,7 @@ type vfC23Reply struct {
 	primary string
 }
 
-var vfC23From = [3]string{"n0", "n1", "n2"}
+var vfC23From = [4]string{"n0", "n1", "n2", "n3"}
 
 // vfC23Replies puts n symbolic replies on a closed channel.
 func vfC23Replies(n int) (chan NodeResponse, []vfC23Reply) {
@@ -85,14 +85,14 @@ func vfC23Expect(rs []vfC23Reply, numNodes int) (consumed, nerr, k0, k1, p0, p1 
 // VfC23_Aggregate: every multiset of <=3 replies of the five kinds.
 //
 //vf:unwind 16
-//vf:bound inputs <=3 replies (empty | wrong type byte | undecodable | failed with/without message | ok listing a subset of 2 keys and a primary); member count 1..4
+//vf:bound inputs <=3 replies (empty | wrong type byte | undecodable | failed with/without message | ok listing a subset of 2 keys and a primary); member count 1..4 (thorough 1..5)
 //vf:stub codec -> identity on tokens
 func VfC23_Aggregate() {
 	s := vfNewSerf("self", 1)
 	k := &KeyManager{serf: s}
 	n := vfChoice("nreplies", 4)
 	ch, rs := vfC23Replies(n)
-	numNodes := 1 + vfChoice("numNodes", 4)
+	numNodes := 1 + vfChoice("numNodes", 4+vfTier())
 	resp := &KeyResponse{Messages: map[string]string{}, Keys: map[string]int{}, PrimaryKeys: map[string]int{}, NumNodes: numNodes}
 	k.streamKeyResp(resp, ch)
 	consumed, nerr, k0, k1, p0, p1 := vfC23Expect(rs, numNodes)
